@@ -167,7 +167,14 @@ func (e *c10exec) exec(in ref.Instr, xs []tensor.Tensor) (t tensor.Tensor, err e
 			}
 		case "full":
 			dims := ref.CopyInts(in.Shape)
-			t, err = tensor.Full(dims, in.F, rt.Conf(in.Tracked))
+			switch in.F { // the constants 0 and 1 come from the dedicated constructors
+			case 0:
+				t, err = tensor.Zeros(dims, rt.Conf(in.Tracked))
+			case 1:
+				t, err = tensor.Ones(dims, rt.Conf(in.Tracked))
+			default:
+				t, err = tensor.Full(dims, in.F, rt.Conf(in.Tracked))
+			}
 			e.kinds["Full"]++
 			if e.scribble {
 				e.garbageInts(dims)
@@ -242,7 +249,7 @@ func c10GenOp(h *c08hist) (ref.Instr, bool) {
 			shape = RandShape(r, 4, 6, 2)
 		}
 		if r.Intn(5) == 0 {
-			return ref.Instr{Op: "full", Shape: shape, F: 0.5 + r.Float64(), Tracked: r.Intn(3) > 0}, true
+			return ref.Instr{Op: "full", Shape: shape, F: []float64{0.5 + r.Float64(), 0, 1}[r.Intn(3)], Tracked: r.Intn(3) > 0}, true
 		}
 		t := Shuffled(r, Unique(r, shape, 0.2, 1.5))
 		if r.Intn(10) == 0 { // an untracked constant holding +Inf, -Inf or NaN: products with it give later back-propagations and optimizer steps non-finite gradients
@@ -339,6 +346,38 @@ func c10GenOp(h *c08hist) (ref.Instr, bool) {
 			return ref.Instr{Op: "patch", In: []int{x, y}, Index: idx}, true
 		}
 	case 4:
+		if r.Intn(2) == 0 { // siblings: an earlier Concat result is extended again, in front position and along the same dimension
+			var cs []int
+			for _, j := range us {
+				if n := h.nodes[j]; n.in.Op == "concat" && len(n.val.Data) <= 40 {
+					cs = append(cs, j)
+				}
+			}
+			if len(cs) > 0 {
+				x = cs[r.Intn(len(cs))]
+				v = h.nodes[x].val
+				rank = len(v.Shape)
+				dim := h.nodes[x].in.Dim
+				y, found := compat(func(s []int) bool {
+					if len(s) != rank || s[dim] > 2 {
+						return false
+					}
+					for i := range s {
+						if i != dim && s[i] != v.Shape[i] {
+							return false
+						}
+					}
+					return true
+				})
+				if !found { // no short partner yet: make one (one or two slabs along the concat dimension)
+					shape := ref.CopyInts(v.Shape)
+					shape[dim] = 1 + r.Intn(2)
+					t := Shuffled(r, Unique(r, shape, 0.2, 1.5))
+					return ref.Instr{Op: "leaf", Shape: shape, Data: t.Data, Tracked: r.Intn(3) == 0}, true
+				}
+				return ref.Instr{Op: "concat", In: []int{x, y}, Dim: dim}, true
+			}
+		}
 		if rank >= 1 && len(v.Data) <= 27 {
 			dim := r.Intn(rank)
 			y, _ := compat(func(s []int) bool {
